@@ -42,12 +42,19 @@ Lemma cv_send_frame f s : cv (send_frame f s) = cv s.
 Proof. unfold send_frame. rewrite cv_idle_reset, cv_ka_reset, cv_send_ready. reflexivity. Qed.
 Lemma cv_send_msg m s : cv (send_msg m s) = cv s.
 Proof. exact (cv_send_frame _ _). Qed.
+Lemma cv_flush_fold (l : list (N * bytes)) : forall s0,
+  cv (fold_left (fun s (it : N * bytes) =>
+               emit (ESig SigSendFinished [PStrNum (fst it); PInt 0; PStr RES_TERMINATING])
+                    (s <| tx_map := dict_del (fst it) (tx_map s) |>)) l s0) = cv s0.
+Proof. induction l as [|it l IH]; intros s0; cbn [fold_left]; [reflexivity|]. rewrite IH. reflexivity. Qed.
+Lemma cv_flush_pend_start s : cv (flush_pend_start s) = cv s.
+Proof. unfold flush_pend_start. rewrite cv_flush_fold. reflexivity. Qed.
 Lemma cv_do_close s : cv (do_close s) = cv s.
 Proof.
   unfold do_close. cbv zeta.
   match goal with |- context [if ?c then _ else _] => destruct c end; [reflexivity|].
-  rewrite cv_emit.
-  match goal with |- context [if ?c then _ else _] => destruct c end; reflexivity.
+  rewrite cv_emit. cv_norm.
+  match goal with |- context [if ?c then _ else _] => destruct c end; cv_norm; rewrite cv_flush_pend_start; reflexivity.
 Qed.
 Lemma cv_pq_trigger s : cv (pq_trigger s) = cv s.
 Proof. unfold pq_trigger. destruct (pq_set s); reflexivity. Qed.
@@ -90,13 +97,6 @@ Proof.
   destruct (sessinit_peer s) as [peer|]; [|reflexivity].
   destruct (negb (ascii (si_nodeid peer))); reflexivity.
 Qed.
-Lemma cv_flush_fold (l : list (N * bytes)) : forall s0,
-  cv (fold_left (fun s (it : N * bytes) =>
-               emit (ESig SigSendFinished [PStrNum (fst it); PInt 0; PStr RES_TERMINATING])
-                    (s <| tx_map := dict_del (fst it) (tx_map s) |>)) l s0) = cv s0.
-Proof. induction l as [|it l IH]; intros s0; cbn [fold_left]; [reflexivity|]. rewrite IH. reflexivity. Qed.
-Lemma cv_flush_pend_start s : cv (flush_pend_start s) = cv s.
-Proof. unfold flush_pend_start. rewrite cv_flush_fold. reflexivity. Qed.
 Lemma cv_tx_proxy a s : cv (fst (tx_proxy a s)) = cv s.
 Proof.
   unfold tx_proxy.
@@ -167,7 +167,7 @@ Proof. unfold cv. intros H. injection H as H1 H2 H3 H4. auto. Qed.
 Lemma closed_do_close s : closed (do_close s) = true.
 Proof.
   unfold do_close. cbv zeta. cbn [closed set]. destruct (closed s) eqn:C; [cbn [closed set]; exact C|].
-  destruct (io_set s); reflexivity.
+  match goal with |- context [if ?c then _ else _] => destruct c end; reflexivity.
 Qed.
 
 (** What handling one frame does to the view: nothing, except that a contact
